@@ -536,7 +536,7 @@ func c33Alloc() *explore.Scenario {
 }
 
 func c33Scenarios(thorough bool) []*explore.Scenario {
-	return []*explore.Scenario{c33Mutations(thorough), c33Raw(), c33Alloc(), c33Renegotiation(), c33PoisonedCache(thorough), c33CookieSweep(), c33OddRecords13(), c33TicketWithoutSession()}
+	return []*explore.Scenario{c33Mutations(thorough), c33Raw(), c33Alloc(), c33Renegotiation(), c33PoisonedCache(thorough), c33CookieSweep(), c33OddRecords13(), c33TicketWithoutSession(), clientKeyUpdateReplyFails("C33")}
 }
 
 func init() {
